@@ -71,27 +71,37 @@ func runC11P(t *testing.T, c c11pCase) kit.Outcome {
 			if w.now() != 0 {
 				return fail(kit.Outcome{Harness: "virtual clock advanced"})
 			}
-			// who left the line?
-			head := -1
-			if len(line) > 0 {
-				head = 0
+			// who left the line? Walk it in the configured order: callers handed a token must form a prefix of that
+			// order (one release may serve several callers where the partitions have room, but never one that has a
+			// still-waiting caller ahead of it).
+			idx := make([]int, len(line))
+			for j := range line {
+				idx[j] = j
 				if lifo {
-					head = len(line) - 1
+					idx[j] = len(line) - 1 - j
 				}
 			}
-			var rest []*vtCaller
-			for j, cl := range line {
+			var waitingAhead *vtCaller
+			for _, j := range idx {
+				cl := line[j]
 				switch {
 				case !cl.Done:
-					rest = append(rest, cl)
-				case cl.OK && j != head:
-					ahead := line[head]
-					return fail(kit.Viol(kind+":served-ahead", "op %d (%s): caller %d (key %q) was handed a token while caller %d (key %q), which is ahead of it in %s order, is still waiting; line (oldest first): %s", i, op.K, cl.ID, cl.Key, ahead.ID, ahead.Key, ordName(lifo), lineStr(line)))
+					if waitingAhead == nil {
+						waitingAhead = cl
+					}
+				case cl.OK && waitingAhead != nil:
+					return fail(kit.Viol(kind+":served-ahead", "op %d (%s): caller %d (key %q) was handed a token while caller %d (key %q), which is ahead of it in %s order, is still waiting; line (oldest first): %s", i, op.K, cl.ID, cl.Key, waitingAhead.ID, waitingAhead.Key, ordName(lifo), lineStr(line)))
 				case cl.OK:
 					held = append(held, cl)
 					handoffs++
 				default:
 					return fail(kit.Viol(kind+":refused", "op %d: waiting caller %d returned refused although no time has passed", i, cl.ID))
+				}
+			}
+			var rest []*vtCaller
+			for _, cl := range line {
+				if !cl.Done {
+					rest = append(rest, cl)
 				}
 			}
 			if op.K == "release" && len(rest) == len(line) && len(line) > 1 {
